@@ -150,12 +150,21 @@ func EstablishedPair(ct, st lime.Transport, chanBuf int) (*lime.ClientChannel, *
 // DialInProcRetry dials an in-process listener, waiting (on the virtual
 // clock) until it is registered.
 func DialInProcRetry(addr lime.InProcessAddr, buf int) lime.Transport {
+	t, ok := TryDialInProc(addr, buf)
+	if !ok {
+		panic("in-process listener never came up")
+	}
+	return t
+}
+
+// TryDialInProc is DialInProcRetry that reports failure instead of panicking.
+func TryDialInProc(addr lime.InProcessAddr, buf int) (lime.Transport, bool) {
 	for i := 0; i < 100; i++ {
 		t, err := lime.DialInProcess(addr, buf)
 		if err == nil {
-			return t
+			return t, true
 		}
 		time.Sleep(time.Millisecond)
 	}
-	panic("in-process listener never came up")
+	return nil, false
 }
